@@ -99,6 +99,8 @@ type interpreter struct {
 	pools     map[*value][]value
 	onces     map[*value]bool
 	syncMaps  map[*value]*omap
+	lockDepth int
+	released  map[*value]bool // cells of objects handed to a sync.Pool and not taken out again (monitor on after Freeze)
 	unwinding bool
 
 	osArgs             []value                // the value of os.Args
@@ -220,6 +222,11 @@ func visitInstr(fr *frame, instr ssa.Instruction) continuation {
 
 	case *ssa.UnOp:
 		x := fr.get(instr.X)
+		if instr.Op == token.MUL && len(fr.i.released) > 0 {
+			if a, ok := x.(*value); ok && fr.i.released[a] {
+				fr.i.sharedWrite("read of a pooled object after sync.Pool.Put", fr)
+			}
+		}
 		if v, ok := fr.i.symUnop(fr, instr.Op, instr.Type(), x); ok {
 			fr.env[instr] = v
 		} else {
@@ -291,6 +298,9 @@ func visitInstr(fr *frame, instr ssa.Instruction) continuation {
 		addr := fr.get(instr.Addr).(*value)
 		if fr.i.frozen != nil && fr.i.frozen[addr] {
 			fr.i.sharedWrite("store", fr)
+		}
+		if len(fr.i.released) > 0 && fr.i.released[addr] {
+			fr.i.sharedWrite("write to a pooled object after sync.Pool.Put", fr)
 		}
 		store(typeparams.MustDeref(instr.Addr.Type()), addr, fr.get(instr.Val))
 
